@@ -118,3 +118,157 @@ def c19(tier, seed):
                         V.append(v("C19", "exit-status-not-2:thread-sweep", {"argv": args, "exit": rc, "tree": files}))
     S.append({"c19": {"forced_schedules": len(scheds) * 4, "thread_counts": threads, "traces_validated_against_impl": traces, "oracle_evaluations": traces}})
     return Q, V, S
+
+
+# ----------------------------------------------------------------------------- C13 / C14
+
+VERIFY_FAIL = "local y = -((-x))\n"   # formats to -(-x); StyLua's own AST verifier rejects it (one paren layer only)
+KINDS = {
+    "s": FORMATTED,
+    "d": UNFORMATTED,
+    "p": UNPARSEABLE,
+    "u": b"local x = \xff\xfe\n",      # not UTF-8: read_to_string fails
+    "v": VERIFY_FAIL,
+}
+FORMATTED_OF = {"d": FORMATTED}
+
+
+def _mk_tree(rng, outcomes, verify):
+    files = {}
+    names = []
+    for i, o in enumerate(outcomes):
+        sub = ["", "a/", "a/b/", "c/"][rng.randrange(4)]
+        name = "%sf%d.lua" % (sub, i)
+        names.append(name)
+        if o == "m":
+            continue
+        content = KINDS[o]
+        if o in ("d", "s") and rng.random() < 0.3:
+            # make files distinguishable
+            content = (content if isinstance(content, str) else content.decode()) + ("local   y%d =  %d\n" % (i, i) if o == "d" else "local y%d = %d\n" % (i, i))
+        files[name] = content
+    return files, names
+
+
+def _expected_formatted(content):
+    # the specimens are built from lines whose formatted form is known
+    out = []
+    for line in content.split("\n"):
+        if line.startswith("local   x"):
+            out.append("local x = 1")
+        elif line.startswith("local   y"):
+            n = line.split("y")[1].split()[0]
+            out.append("local y%s = %s" % (n, n))
+        else:
+            out.append(line)
+    return "\n".join(out)
+
+
+def _diff_ids(fmt, out_text, names):
+    ids = set()
+    if fmt == "standard":
+        for l in out_text.split("\n"):
+            if l.startswith("Diff in "):
+                p = l[len("Diff in "):].rstrip(":")
+                for i, n in enumerate(names):
+                    if os.path.normpath(p) == os.path.normpath(n):
+                        ids.add(i)
+    elif fmt == "json":
+        for l in out_text.split("\n"):
+            l = l.strip()
+            if l.startswith("{") and '"mismatches"' in l:
+                try:
+                    p = json.loads(l)["file"]
+                except Exception:
+                    continue
+                for i, n in enumerate(names):
+                    if os.path.normpath(p) == os.path.normpath(n):
+                        ids.add(i)
+    elif fmt == "summary":
+        for l in out_text.split("\n"):
+            for i, n in enumerate(names):
+                if os.path.normpath(l.strip()) == os.path.normpath(n):
+                    ids.add(i)
+    return ids
+
+
+def c13(tier, seed, modes=("check",)):
+    Q, V, S = [], [], []
+    rng = random.Random(seed * 7919 + 13)
+    n = 600 if tier == "thorough" else 150
+    runs = 0
+    dist = {}
+    for case in range(n):
+        k = rng.randrange(1, 6)
+        verify = rng.random() < 0.4
+        letters = "sdpum" + ("v" if verify else "")
+        outcomes = [rng.choice(letters) for _ in range(k)]
+        for o in outcomes:
+            dist[o] = dist.get(o, 0) + 1
+        for mode in modes:
+            fmts = ["standard", "json", "unified", "summary"] if mode == "check" else ["standard", "json"]
+            for fmt in fmts:
+                files, names = _mk_tree(random.Random(seed * 31 + case), outcomes, verify)
+                with Tree(files) as t:
+                    before = t.snapshot()
+                    order = list(range(k))
+                    rng.shuffle(order)
+                    args = (["--check"] if mode == "check" else []) + ["--output-format", fmt] + (["--verify"] if verify else [])
+                    if rng.random() < 0.5:
+                        args += ["--num-threads", str(rng.choice([1, 2, 7]))]
+                    args += [names[i] for i in order]
+                    rc, out, err = run(args, t.root)
+                    after = t.snapshot()
+                    runs += 1
+                    out_text = out.decode("utf-8", "replace")
+                    changed = sorted(i for i, nm in enumerate(names) if nm in before and (nm not in after or after[nm][0] != before[nm][0]))
+                    touched = sorted(nm for nm in before if nm not in after or after[nm][1:3] != before[nm][1:3])
+                    created = sorted(nm for nm in after if nm not in before)
+                    detail = {"argv": args, "tree": {k_: (v_ if isinstance(v_, str) else v_.decode("latin1")) for k_, v_ in files.items()}, "exit": rc, "stdout": out_text[:600], "stderr": err.decode("utf-8", "replace")[:600]}
+                    # ---- ring 2
+                    if fmt == "unified":
+                        nd = out_text.count("--- old")
+                        dtxt = "n=%d" % nd
+                    else:
+                        dtxt = ",".join(str(i) for i in sorted(_diff_ids(fmt, out_text, names)))
+                    Q.append(q("run %s %s" % (mode, "".join(outcomes)), "%d w:%s d:%s" % (rc, ",".join(str(i) for i in changed), dtxt) if fmt != "unified" else None))
+                    if fmt == "unified":
+                        Q.pop()
+                        exp_n = sum(1 for o in outcomes if o == "d")
+                        if nd != exp_n:
+                            V.append(v("C13", "unified:number-of-diffs", dict(detail, expected=exp_n, observed=nd)))
+                    # ---- ring 3
+                    any_err = any(o in "pumv" for o in outcomes)
+                    any_diff = any(o == "d" for o in outcomes)
+                    if mode == "check":
+                        if touched or created:
+                            V.append(v("C13", "check-mode-touched-files", dict(detail, touched=touched, created=created)))
+                        exp = 2 if any_err else (1 if any_diff else 0)
+                        if rc != exp:
+                            V.append(v("C13", "check-exit-status", dict(detail, expected=exp)))
+                    else:
+                        exp = 2 if any_err else 0
+                        if rc != exp:
+                            V.append(v("C14", "write-exit-status", dict(detail, expected=exp)))
+                        for i, (nm, o) in enumerate(zip(names, outcomes)):
+                            if o == "m":
+                                continue
+                            was = before[nm][3]
+                            now = after[nm][3] if nm in after else None
+                            if o == "d":
+                                want = _expected_formatted(was.decode()).encode()
+                                if now != want:
+                                    V.append(v("C14", "differing-file-not-formatted", dict(detail, file=nm)))
+                            else:
+                                if now != was:
+                                    V.append(v("C14", "failing-or-formatted-file-modified", dict(detail, file=nm, kind=o)))
+                                elif after[nm][1:3] != before[nm][1:3]:
+                                    V.append(v("C14", "unchanged-file-rewritten", dict(detail, file=nm, kind=o)))
+                        if created:
+                            V.append(v("C14", "files-created", dict(detail, created=created)))
+    S.append({"c13_c14": {"cases": n, "runs": runs, "outcome_distribution": dist, "oracle_evaluations": runs}})
+    return Q, V, S
+
+
+def c14(tier, seed):
+    return c13(tier, seed, modes=("write",))
